@@ -538,6 +538,16 @@ def tie_games(ctx, divs):
             d = damage(rng, t)
             if encodable(d):
                 texts.append(("damaged", None, d))
+    # one game text parsed again and again as it grows (a live game followed move by move), with a
+    # refused continuation in between: every parse returns exactly the moves of ITS text
+    for _, sc, t in [x for x in texts if x[0] == "rendered"][: (12 if ctx.thorough else 5)]:
+        base = t.rstrip()
+        if not base:
+            continue
+        g1, g2, g3 = (rng.choice(["a1", "Sb2", "Cc3", "b1>", "2c2+11", "a3-", "c1<"]) for _ in range(3))
+        for tt in (base, base + " " + g1 + " zz9", base + " " + g2, base + " " + g2 + " " + g3, base + " " + g1 + " 9a1>", base):
+            if encodable(tt):
+                texts.append(("grown", None, tt))
     outs = driver.run_lines(["ptn game " + hexenc(t) for _, _, t in texts])
     initlines, initmeta = [], []
     for (label, sc, t), mo in zip(texts, outs):
